@@ -298,6 +298,9 @@ func Minimise(spec *RunSpec, prop, sig string, opts RunOpts, budget int) (*RunSp
 							return true
 						}) || changed
 					}
+					if op.Txns[ti].Jump > 0 {
+						changed = try(func(c *RunSpec) bool { (*taskLists(c)[li])[oi].Txns[ti].Jump = 0; return true }) || changed
+					}
 					if op.Txns[ti].Span > 1 {
 						changed = try(func(c *RunSpec) bool { (*taskLists(c)[li])[oi].Txns[ti].Span = 0; return true }) || changed
 					}
